@@ -163,6 +163,7 @@ func init() {
 			p.BlockOps = []string{"joiner", "joiner", "close", "close", "switch", "switch", "newjoin"}
 			p.MaxSessions = 3
 			p.PEndgame = 0.3
+			p.StallBoost = 0.5
 		}), "distinct run digests in which a session ended (its last member left) after accepted joins", func(r *Result) bool { return trig(r, "departure", "block") })
 	props["C10"] = &propSpec{ID: "C10", Rule: "distinct run digests with at least two id allocations (sessions, participants, entities, types, assets) or a generator micro-world with >= 2 tasks",
 		NonTrivial: func(r *Result) bool { return trig(r) || r.Triggers["idgen_ops"] > 0 },
@@ -173,7 +174,8 @@ func init() {
 			p := concProfile("C10", map[string]int{"entity_add": 16, "entity_delete": 8, "type_add": 10, "asset_add": 10, "switch": 8}, func(p *Profile) {
 				p.PClose = 0.1
 				p.BlockOps = []string{"entity_add", "entity_add", "type_add", "asset_add", "joiner", "newjoin", "close", "switch"}
-				p.PEndgame = 0.2
+				p.PEndgame = 0.3
+				p.StallBoost = 0.5
 			})
 			sc := GenHistory(seed, p)
 			sc.Prop = "C10"
@@ -197,11 +199,14 @@ func init() {
 			if os.Getenv("HSIM_MIX") == "race" {
 				pStorm, pDuel = 0.45, 0.6
 			}
+			if r.Bool(0.12) {
+				return groundDuel(seed, r, p)
+			}
 			if r.Bool(pStorm) {
 				return componentStorm(seed, r, p)
 			}
 			if r.Bool(pDuel) {
-				return duel(seed, r, p)
+				return duel(seed, r, p, "C09")
 			}
 			p.MinMembers = 2 + r.Intn(6)
 			sc := GenHistory(seed, p)
@@ -300,7 +305,7 @@ func runIDGenWorld(t *testing.T, seed uint64) *Result {
 // duel: a small session in which block after block of 2-4 simultaneous requests meets on one
 // entity, one component key and one action name (the owner deletes, leaves or changes; the
 // others attach, change, read, detach): the check-then-act windows of the handlers.
-func duel(seed uint64, r *simrt.Rand, p *Profile) *Scenario {
+func duel(seed uint64, r *simrt.Rand, p *Profile, prop string) *Scenario {
 	g := &genState{r: r, p: p, joined: map[int]string{}, dead: map[int]bool{}, sessN: 1}
 	n := 2 + r.Intn(3)
 	for c := 0; c < n; c++ {
@@ -333,6 +338,62 @@ func duel(seed uint64, r *simrt.Rand, p *Profile) *Scenario {
 			if !g.dead[c] && g.joined[c] != "" {
 				add(g.makeOp(c, []string{"entity_add", "comp_add", "action", "comp_list"}[r.Intn(4)]))
 			}
+		}
+	}
+	sc := &Scenario{Prop: prop, Family: "history", Seed: seed, Steps: g.steps}
+	sc.World = genWorld(seed, r, p)
+	sc.World.Modules = []string{"vikja", "odal", "dagaz"}
+	sc.World.Decorators = c09Decorators(seed)
+	if sc.World.Policy == "seq" {
+		sc.World.Policy = "rand"
+	}
+	sc.World.Net.Jitter = 0
+	sc.World.UnlockYield = []float64{0.2, 0.5, 0.8}[r.Intn(3)]
+	sc.World.FrameDuration = []time.Duration{time.Millisecond, 5 * time.Millisecond, 15 * time.Millisecond, 50 * time.Millisecond}[r.Intn(4)]
+	return sc
+}
+
+// groundDuel: members of one session keep sampling the same patch of ground (appends first,
+// then merges into the stored planes) while others cast rays at it and query the region.
+func groundDuel(seed uint64, r *simrt.Rand, p *Profile) *Scenario {
+	g := &genState{r: r, p: p, joined: map[int]string{}, dead: map[int]bool{}, sessN: 1}
+	n := 2 + r.Intn(3)
+	for c := 0; c < n; c++ {
+		g.join(c, "S0")
+	}
+	g.nConns = n
+	add := func(st Step) { g.steps = append(g.steps, st) }
+	x, z := float32(r.Intn(5)-2), float32(r.Intn(5)-2)
+	quad := func() QuadSpec {
+		return QuadSpec{C: [3]float32{x + float32(r.Intn(3)-1)*0.25, 0, z + float32(r.Intn(3)-1)*0.25}, E: [3]float32{0.5 + float32(r.Intn(3))*0.25, 0, 0.5 + float32(r.Intn(3))*0.25}}
+	}
+	add(Step{Conn: 0, Op: "quad_sample", Quads: []QuadSpec{quad()}})
+	for round := 0; round < 2+r.Intn(4); round++ {
+		g.nextBlk++
+		perm := r.Perm(n)
+		for i, c := range perm {
+			var st Step
+			switch {
+			case i == 0:
+				st = Step{Conn: c, Op: "quad_sample", Quads: []QuadSpec{quad()}}
+				if r.Bool(0.3) {
+					st.Quads = append(st.Quads, quad())
+				}
+			case i == 1:
+				st = Step{Conn: c, Op: "get_ground", F: []float32{x, 5, z, x, -5, z}}
+			default:
+				op := []string{"get_region", "quad_sample", "get_ground", "debug_info"}[r.Intn(4)]
+				st = Step{Conn: c, Op: op, F: []float32{-10, 0, -10, 10, 0, 10}}
+				if op == "quad_sample" {
+					st.Quads = []QuadSpec{quad()}
+					st.F = nil
+				}
+				if op == "get_ground" {
+					st.F = []float32{x + 0.25, 5, z, x + 0.25, -5, z}
+				}
+			}
+			st.Block = g.nextBlk
+			add(st)
 		}
 	}
 	sc := &Scenario{Prop: "C09", Family: "history", Seed: seed, Steps: g.steps}
